@@ -7,14 +7,18 @@ use crate::scn_lair::DAY_NS;
 
 pub fn scenario(tier: &str) -> EpochScn {
     let mut roots = vec![
-        ERoot { label: "manager/1d/0hooks".into(), distributor: false, duration_ns: DAY_NS, hooks: 0 },
-        ERoot { label: "manager/1d/2hooks".into(), distributor: false, duration_ns: DAY_NS, hooks: 2 },
-        ERoot { label: "distributor/1d".into(), distributor: true, duration_ns: DAY_NS, hooks: 0 },
+        ERoot { label: "manager/1d/0hooks".into(), distributor: false, duration_ns: DAY_NS, hooks: 0, genesis_frac_ns: 0 },
+        ERoot { label: "manager/1d/2hooks".into(), distributor: false, duration_ns: DAY_NS, hooks: 2, genesis_frac_ns: 0 },
+        ERoot { label: "distributor/1d".into(), distributor: true, duration_ns: DAY_NS, hooks: 0, genesis_frac_ns: 0 },
     ];
+    // clocks that do not fall on whole seconds: genesis at +0.75 s, duration one day and one nanosecond
+    roots.push(ERoot { label: "manager/1d+1ns/1hook/genesis+0.75s".into(), distributor: false, duration_ns: DAY_NS + 1, hooks: 1, genesis_frac_ns: 750_000_000 });
+    roots.push(ERoot { label: "manager/1d/0hooks/genesis+0.75s".into(), distributor: false, duration_ns: DAY_NS, hooks: 0, genesis_frac_ns: 750_000_000 });
+    roots.push(ERoot { label: "distributor/1d+1ns/genesis+0.75s".into(), distributor: true, duration_ns: DAY_NS + 1, hooks: 0, genesis_frac_ns: 750_000_000 });
     if tier != "quick" {
-        roots.push(ERoot { label: "manager/3d/3hooks".into(), distributor: false, duration_ns: 3 * DAY_NS, hooks: 3 });
-        roots.push(ERoot { label: "manager/3d/1hook".into(), distributor: false, duration_ns: 3 * DAY_NS, hooks: 1 });
-        roots.push(ERoot { label: "distributor/3d".into(), distributor: true, duration_ns: 3 * DAY_NS, hooks: 0 });
+        roots.push(ERoot { label: "manager/3d/3hooks".into(), distributor: false, duration_ns: 3 * DAY_NS, hooks: 3, genesis_frac_ns: 0 });
+        roots.push(ERoot { label: "manager/3d/1hook".into(), distributor: false, duration_ns: 3 * DAY_NS, hooks: 1, genesis_frac_ns: 0 });
+        roots.push(ERoot { label: "distributor/3d".into(), distributor: true, duration_ns: 3 * DAY_NS, hooks: 0, genesis_frac_ns: 0 });
     }
     EpochScn { roots }
 }
